@@ -19,6 +19,7 @@ from ..common.logger import resonaateLogError, resonaateLogWarning
 from ..physics.bodies import Earth
 from .dynamics_base import Dynamics, DynamicsErrorFlag
 from .integration_events.finite_thrust import ScheduledFiniteThrust
+from .integration_events.scheduled_impulse import ScheduledImpulse
 
 # Type Checking Imports
 if TYPE_CHECKING:
@@ -55,6 +56,20 @@ def checkEarthCollision(r_norm: float):
     if r_norm < Earth.radius + Earth.atmosphere:
         msg = "An RSO is within 100km of Earth surface"
         resonaateLogWarning(msg)
+
+
+def _dropFiredImpulses(events: list, t_events: list) -> list:
+    r"""Remove scheduled impulses that stopped the integration from the events of the restarted integration.
+
+    An impulse is a one-shot event. The integration restarts one ulp after the time returned by the solver's root
+    finder, which can still be at (or one ulp before) the impulse time, where the impulse's event function is still
+    zero or negative: without this the same delta-v is applied again on the restart.
+    """
+    return [
+        event
+        for event, t_event in zip(events, t_events)
+        if not (isinstance(event, ScheduledImpulse) and t_event.size > 0)
+    ]
 
 
 class Celestial(Dynamics, metaclass=ABCMeta):
@@ -198,6 +213,7 @@ class Celestial(Dynamics, metaclass=ABCMeta):
                 events,
                 initial_state,
             )
+            events = _dropFiredImpulses(events, solution.t_events)
 
             # Retrieve final time, this should auto-exit the loop if fully-integrated
             initial_time = solution.t[-1] + spacing(solution.t[-1])
@@ -306,6 +322,8 @@ class Celestial(Dynamics, metaclass=ABCMeta):
                 # an event occurs on a `times`
                 if current_time == solution.t[-1]:
                     states[..., -1] = current_state.copy()
+
+                events = _dropFiredImpulses(events, solution.t_events)
 
             # [TODO]: This may not be needed?
             # The reshape should give a _view_ into `states`, but this is just in case
